@@ -213,16 +213,21 @@ def lambda_body(lam):
 SCALAR_CTORS = {"Scalar", "S", "double", "float", "T", "_Scalar", "typename G::Scalar", "Scalar_"}
 
 
-def callee_name(n):
-    """Name of a call's callee expression (possibly qualified, from source text for dependent names)."""
+def callee_name(n, rich=False):
+    """Name of a call's callee expression (possibly qualified, from source text for dependent names).
+    rich: keep explicit template arguments and qualifiers of unresolved names (engine M needs them to pick the instantiation)."""
     n = strip(n)
     k = n.get("kind")
     if k == "UnresolvedLookupExpr":
+        if rich:
+            t = ntext(n)
+            if t:
+                return t
         return n.get("name")
     if k == "DeclRefExpr":
         rd = n.get("referencedDecl", {})
         t = ntext(n)
-        if t and "::" in t:
+        if t and ("::" in t or (rich and "<" in t)):
             return t
         return rd.get("name")
     if k in ("DependentScopeDeclRefExpr", "UnresolvedMemberExpr"):
@@ -254,7 +259,7 @@ def targs_text(n):
     return None
 
 
-def to_expr(n):
+def to_expr(n, rich=False):
     n = strip(n)
     k = n.get("kind")
     ks = kids(n)
@@ -270,71 +275,77 @@ def to_expr(n):
         return ("bool", bool(n.get("value")))
     if k in ("DeclRefExpr",):
         rd = n.get("referencedDecl", {})
+        if rich:
+            t = ntext(n)
+            if t and "<" in t:
+                return ("ref", rd.get("name"), rd.get("id"), t)
         return ("ref", rd.get("name"), rd.get("id"))
     if k == "DependentScopeDeclRefExpr":
         return ("ref", ntext(n), None)
     if k == "UnresolvedLookupExpr":
+        if rich and "<" in ntext(n):
+            return ("ref", n.get("name"), None, ntext(n))
         return ("ref", n.get("name"), None)
     if k == "CXXThisExpr":
         return ("this",)
     if k in ("BinaryOperator", "CompoundAssignOperator"):
-        return ("op", n["opcode"], to_expr(ks[0]), to_expr(ks[1]))
+        return ("op", n["opcode"], to_expr(ks[0], rich), to_expr(ks[1], rich))
     if k == "CXXRewrittenBinaryOperator":
-        return to_expr(ks[0])
+        return to_expr(ks[0], rich)
     if k == "UnaryOperator":
         op = n["opcode"]
         if op == "-":
-            e = to_expr(ks[0])
+            e = to_expr(ks[0], rich)
             if e[0] == "num":
                 return ("num", -e[1])
             return ("neg", e)
         if op == "+":
-            return to_expr(ks[0])
-        return ("un", op + ("post" if n.get("isPostfix") else ""), to_expr(ks[0]))
+            return to_expr(ks[0], rich)
+        return ("un", op + ("post" if n.get("isPostfix") else ""), to_expr(ks[0], rich))
     if k in ("CXXUnresolvedConstructExpr", "CXXFunctionalCastExpr", "CStyleCastExpr", "CXXStaticCastExpr",
              "CXXTemporaryObjectExpr", "CXXConstructExpr"):
         ty = n.get("type", {}).get("qualType", "")
         if k == "CXXUnresolvedConstructExpr":
             ty = n.get("typeAsWritten", {}).get("qualType", ty) or ty
-        args = [to_expr(c) for c in ks]
+        args = [to_expr(c, rich) for c in ks]
         if len(args) == 1 and (ty in SCALAR_CTORS or ty.endswith("Scalar") or k == "CXXConstructExpr"):
             return args[0]
         return ("ctor", ty, args)
     if k == "ConditionalOperator":
-        return ("cond", to_expr(ks[0]), to_expr(ks[1]), to_expr(ks[2]))
+        return ("cond", to_expr(ks[0], rich), to_expr(ks[1], rich), to_expr(ks[2], rich))
     if k == "ArraySubscriptExpr":
-        return ("sub", to_expr(ks[0]), [to_expr(ks[1])])
+        return ("sub", to_expr(ks[0], rich), [to_expr(ks[1], rich)])
     if k == "InitListExpr":
-        return ("init", [to_expr(c) for c in ks])
+        return ("init", [to_expr(c, rich) for c in ks])
     if k == "ParenListExpr":
         if len(ks) == 1:
-            return to_expr(ks[0])
-        return ("init", [to_expr(c) for c in ks])
+            return to_expr(ks[0], rich)
+        return ("init", [to_expr(c, rich) for c in ks])
     if k == "LambdaExpr":
         return ("lambda", n)
     if k in ("MemberExpr", "CXXDependentScopeMemberExpr"):
-        base = to_expr(ks[0]) if ks else ("this",)
+        base = to_expr(ks[0], rich) if ks else ("this",)
         return ("member", base, n.get("member") or n.get("name"), targs_text(n))
     if k == "UnresolvedMemberExpr":
         return ("member", ("this",), n.get("name") or ntext(n), None)
     if k in ("CallExpr", "CXXMemberCallExpr"):
         cal = strip(ks[0])
-        args = [to_expr(c) for c in ks[1:] if c.get("kind") != "CXXDefaultArgExpr"]
+        args = [to_expr(c, rich) for c in ks[1:] if c.get("kind") != "CXXDefaultArgExpr"]
         ck = cal.get("kind")
         if ck in ("MemberExpr", "CXXDependentScopeMemberExpr"):
             cks = kids(cal)
-            base = to_expr(cks[0]) if cks else ("this",)
+            base = to_expr(cks[0], rich) if cks else ("this",)
             return ("mcall", base, cal.get("member") or cal.get("name"), targs_text(cal), args)
         if ck == "LambdaExpr":
             return ("call", ("lambda", cal), args)
         if ck == "UnresolvedMemberExpr":
             return ("mcall", ("this",), cal.get("name") or ntext(cal), None, args)
-        return ("call", callee_name(cal), args)
+        return ("call", callee_name(cal, rich), args)
     if k == "CXXOperatorCallExpr":
         cal = strip(ks[0])
-        op = callee_name(cal) or ""
+        op = callee_name(cal, rich) or ""
         op = op.replace("operator", "")
-        args = [to_expr(c) for c in ks[1:]]
+        args = [to_expr(c, rich) for c in ks[1:]]
         if op == "()":
             return ("sub", args[0], args[1:])
         if op == "[]":
@@ -355,9 +366,9 @@ def to_expr(n):
     if k == "CXXNullPtrLiteralExpr":
         return ("null",)
     if k == "PackExpansionExpr":
-        return ("pack", to_expr(ks[0]))
+        return ("pack", to_expr(ks[0], rich))
     if k == "CXXFoldExpr":
-        return ("fold", n.get("opcode", ""), [to_expr(c) for c in ks if c.get("kind")])
+        return ("fold", n.get("opcode", ""), [to_expr(c, rich) for c in ks if c.get("kind")])
     if k == "SizeOfPackExpr":
         return ("sizeofpack", ntext(n))
     return ("other", k, ntext(n))
